@@ -180,11 +180,31 @@ FUNCS = [
 	dict(name='get_result_item', file='query.py', qual='get_result_item', module='PyResultItem', env=[ENV_F, ENV_G], strings='msg',
 	     params=[('db', ('db',)), ('params', REC('QueryParams')), ('dists', LIST(NUM)), ('input', INT)], ret=REC('QueryResultItem'),
 	     locals={'closest': LIST(REC('GenomeMatch'))}),
+	# --- db/refdb.py: pairing of genomes and signatures by ID.  Environment: GID[g] = the ID value of genome g under the chosen attribute
+	#     (none = the genome has no value); ID values are naturals; an ID attribute is abstracted to "is it one of Genome.ID_ATTRS".
+	dict(name='check_genomes_have_ids', file='db/refdb.py', qual='_check_genomes_have_ids', module='PyRefDb', env=[('GID', 'List (Option Nat)')],
+	     params=[('genomeset', ('db',)), ('id_attr', BOOL)], ret=OPT(INT),
+	     opaque={'genomeset.genomes.join(AnnotatedGenome.genome).filter(id_attr == None).count()': ('(((GID.filter (·.isNone)).length : Nat) : Int)', INT)}),
+	dict(name='map_ids_to_genomes', file='db/refdb.py', qual='_map_ids_to_genomes', module='PyRefDb', env=[('GID', 'List (Option Nat)')],
+	     params=[('genomeset', ('db',)), ('id_attr', BOOL)], ret=DICT(NUM, GENOME),
+	     opaque={'genomeset.genomes.join(AnnotatedGenome.genome).add_columns(id_attr)':
+	             ('((List.range GID.length).filterMap (fun g => (GID.getD g none).map (fun i => (g, i))))', LIST(TUP(GENOME, NUM)))}),
+	dict(name='genomes_by_id', file='db/refdb.py', qual='genomes_by_id', module='PyRefDb', env=[('GID', 'List (Option Nat)')],
+	     params=[('genomeset', ('db',)), ('id_attr', BOOL), ('ids', LIST(NUM)), ('strict', BOOL)], ret=LIST(OPT(GENOME)),
+	     calls={'_check_genome_id_attr': ('{0}', BOOL, [('(!{0})', 'ValueError')])}),
+	dict(name='genomes_by_id_subset', file='db/refdb.py', qual='genomes_by_id_subset', module='PyRefDb', env=[('GID', 'List (Option Nat)')],
+	     params=[('genomeset', ('db',)), ('id_attr', BOOL), ('ids', LIST(NUM))], ret=TUP(LIST(GENOME), LIST(INT)),
+	     locals={'genomes_out': LIST(GENOME), 'idxs_out': LIST(INT)}),
+	dict(name='refdb_init', file='db/refdb.py', qual='ReferenceDatabase.__init__', module='PyRefDb',
+	     env=[('GID', 'List (Option Nat)'), ('IDATTR', 'Option Bool'), ('SIGIDS', 'List Nat')],
+	     params=[('genomeset', ('db',)), ('signatures', ('db',))], ret=TUP(LIST(GENOME), LIST(INT)), init=['genomes', 'sig_indices'], strings='msg',
+	     opaque={'signatures.meta.id_attr': ('IDATTR', OPT(BOOL)), 'signatures.ids': ('SIGIDS', LIST(NUM)),
+	             'object_session(genomeset)': ('()', ('db',)), 'genomeset.genomes.count()': ('((GID.length : Nat) : Int)', INT)}),
 	dict(name='check_index', file='util/indexing.py', qual='AdvancedIndexingMixin._check_index', module='PyCheckIndex',
 	     env=[], params=[('self_len', INT), ('i', INT)], ret=INT, self_len='self_len'),
 ]
 
-EXC = {'ValueError', 'TypeError', 'IndexError', 'KeyError', 'AttributeError', 'AssertionError'}
+EXC = {'ValueError', 'TypeError', 'IndexError', 'KeyError', 'AttributeError', 'AssertionError', 'RuntimeError'}
 
 
 def exc_name(node) -> str:
@@ -211,6 +231,7 @@ class Fn:
 		self.order = [n for n, _ in decl['params']]
 		self.narrow = set()                 # keys of Optional expressions known to be non-None here
 		self.calls = set()                  # modules of the translated functions this one calls
+		self.callees = set()                # their names (a function that calls a stub is not comparable with the real one either)
 		self.consts = {}                    # module-level literal constants
 		self.pre = []                       # hoisted calls of translated functions of the statement being translated
 		self.nohoist = 0                    # > 0 inside operands that are evaluated conditionally (and / or / conditional expression / loop test)
@@ -289,6 +310,10 @@ class Fn:
 
 	# ---- expressions -----------------------------------------------------------------------------
 	def expr(self, n) -> E:
+		# expressions over the repository's ORM objects that are read as a whole (exact text, declared per function)
+		op = (self.d.get('opaque') or {}).get(ast.unparse(n))
+		if op is not None:
+			return E(op[0], op[1], list(op[2]) if len(op) > 2 else [])
 		m = getattr(self, 'e_' + type(n).__name__, None)
 		if m is None:
 			raise Untranslatable(f'expression {type(n).__name__} at line {getattr(n, "lineno", "?")}')
@@ -330,6 +355,8 @@ class Fn:
 		raise Untranslatable(f'name {x}')
 
 	def e_Attribute(self, n):
+		if self.d.get('init') and isinstance(n.value, ast.Name) and n.value.id == 'self' and ('self_' + n.attr) in self.vars:
+			return E(f's.self_{n.attr}', self.vars['self_' + n.attr])
 		sa = self.d.get('self_attrs') or {}
 		if isinstance(n.value, ast.Name) and n.value.id == 'self' and n.attr in sa:
 			f, t = sa[n.attr]
@@ -508,6 +535,10 @@ class Fn:
 
 	def e_Subscript(self, n):
 		o = self.value(n.value)
+		if o.ty[0] == 'dict' and not isinstance(n.slice, ast.Slice):
+			k = self.coerce(self.value(n.slice), o.ty[1], 'dict key')
+			return E(f'((Py.dictGet? {o.lean} {k.lean}).getD {default(o.ty[2])})', o.ty[2],
+			         o.raises + k.raises + [(f'(Py.dictGet? {o.lean} {k.lean}).isNone', 'KeyError')])
 		if o.ty[0] not in ('list', 'bytes', 'str'):
 			raise Untranslatable(f'subscript of {o.ty}')
 		elt = BYTE if o.ty == BYTES else CHAR if o.ty == STR else o.ty[1]
@@ -523,6 +554,21 @@ class Fn:
 		if i.ty != INT: raise Untranslatable('index that is not an int')
 		return E(f'((Py.getItem? {o.lean} {i.lean}).getD {default(elt)})', elt,
 		         o.raises + i.raises + [(f'(Py.getItem? {o.lean} {i.lean}).isNone', 'IndexError')])
+
+	def e_DictComp(self, n):
+		if len(n.generators) != 1 or n.generators[0].ifs or n.generators[0].is_async: raise Untranslatable('dict comprehension with conditions / several generators')
+		g = n.generators[0]
+		xs = self.value(g.iter)
+		if not (xs.ty[0] == 'list' and xs.ty[1][0] == 'tuple' and len(xs.ty[1][1]) == 2 and isinstance(g.target, ast.Tuple) and len(g.target.elts) == 2
+		        and all(isinstance(t, ast.Name) for t in g.target.elts) and isinstance(n.key, ast.Name) and isinstance(n.value, ast.Name)):
+			raise Untranslatable('dict comprehension that is not {k: v for a, b in pairs}')
+		a, b = (t.id for t in g.target.elts)
+		ta, tb = xs.ty[1][1]
+		if (n.key.id, n.value.id) == (a, b):
+			return E(f'(Py.dictFromPairs {xs.lean})', DICT(ta, tb), xs.raises)
+		if (n.key.id, n.value.id) == (b, a):
+			return E(f'(Py.dictFromPairs (({xs.lean}).map (fun p => (p.2, p.1))))', DICT(tb, ta), xs.raises)
+		raise Untranslatable('dict comprehension whose key / value are not the loop names')
 
 	def e_SetComp(self, n):
 		return self.comp(n, SET)
@@ -584,6 +630,11 @@ class Fn:
 				e = E(f'({a.lean}, {b.lean})', TUP(INT, INT), a.raises + b.raises)
 				e.parts = [a, b]
 				return e
+			if name in (self.d.get('calls') or {}) and not kw:
+				# a helper modelled by a template: (lean with {0}…, type, [(raise condition with {0}…, exception)])
+				tmpl, ty, rs = self.d['calls'][name]
+				a = [self.expr(x) for x in args]
+				return E(tmpl.format(*[x.lean for x in a]), ty, guard_all(a) + [(c.format(*[x.lean for x in a]), k) for c, k in rs])
 			if name in self.known:
 				if self.nohoist: raise Untranslatable(f'call of {name} in a conditionally evaluated operand')
 				call, ty, raises = self.call_known(n)
@@ -618,6 +669,7 @@ class Fn:
 						if self.nohoist: raise Untranslatable(f'{name}() with a computed default in a conditionally evaluated operand')
 						d = self.known[fn]
 						self.calls.add(d['module'])
+						self.callees.add(d['name'])
 						largs = []
 						for a in argspecs:
 							base, _, attr = a.partition('.')
@@ -706,6 +758,9 @@ class Fn:
 			if o.ty == BYTES and m == 'upper' and not args: return E(f'(GambitV.upper {o.lean})', BYTES, o.raises)
 			if o.ty == BYTES and m == 'lower' and not args: return E(f'(Py.lower {o.lean})', BYTES, o.raises)
 			if o.ty[0] == 'dict' and m == 'keys' and not args: return E(f'(({o.lean}).map (·.1))', LIST(o.ty[1]), o.raises)
+			if o.ty[0] == 'dict' and m == 'get' and len(args) == 1 and not kw:
+				k = self.coerce(self.value(args[0]), o.ty[1], 'dict key')
+				return E(f'(Py.dictGet? {o.lean} {k.lean})', OPT(o.ty[2]), o.raises + k.raises)
 			if o.ty[0] == 'dict' and m == 'items' and not args: return E(o.lean, LIST(TUP(o.ty[1], o.ty[2])), o.raises)
 			if o.ty == STR and m == 'endswith' and len(args) == 1:
 				a = self.value(args[0])
@@ -721,7 +776,7 @@ class Fn:
 	def assign(self, name, e: E, ind) -> str:
 		if e.ty == ('dict', NONE, NONE) or e.ty == LIST(NONE) or e.ty == SET(NONE):
 			# empty container: the element type comes from the declared return type / later use
-			want = self.empty_types.get(name)
+			want = self.empty_types.get(name) or self.vars.get(name)
 			if want is None: raise Untranslatable(f'element type of the empty container assigned to {name} is unknown')
 			e = E('[]', want, e.raises)
 		self.declare(name, e.ty)
@@ -753,6 +808,9 @@ class Fn:
 		v = st.value
 		if isinstance(v, ast.Constant) and isinstance(v.value, str):
 			return ''   # doc-string
+		if isinstance(v, ast.Call) and isinstance(v.func, ast.Name) and v.func.id in self.known:
+			call, ty, raises = self.call_known(v)      # a translated function called for its checks only
+			return self.guards(raises, ind) + f'{ind}let _ ← Py.call {call}\n'
 		if isinstance(v, ast.Yield):
 			if not self.gen: raise Untranslatable('yield in a function not declared a generator')
 			e = self.coerce(self.expr(v.value), self.gen, 'yielded value')
@@ -765,11 +823,11 @@ class Fn:
 				r = tgt.value.id
 				fields = dict(RECORDS[self.vars[r][1]]['fields'])
 				if tgt.attr in fields and fields[tgt.attr][0] == 'list':
-					a = self.coerce(self.value(v.args[0]), fields[tgt.attr][1], 'appended value')
+					a = self.coerce(self.expr(v.args[0]), fields[tgt.attr][1], 'appended value')
 					f = mangle(tgt.attr)
 					return self.guards(a.raises, ind) + f'{ind}let s : St := {{ s with {r} := {{ s.{r} with {f} := s.{r}.{f} ++ [{a.lean}] }} }}\n'
 			if isinstance(tgt, ast.Name) and tgt.id in self.vars and self.vars[tgt.id][0] == 'list':
-				a = self.coerce(self.value(v.args[0]), self.vars[tgt.id][1], 'appended value')
+				a = self.coerce(self.expr(v.args[0]), self.vars[tgt.id][1], 'appended value')
 				return self.guards(a.raises, ind) + f'{ind}let s : St := {{ s with {tgt.id} := s.{tgt.id} ++ [{a.lean}] }}\n'
 			# d.setdefault(k, []).append(v)
 			if (isinstance(tgt, ast.Call) and isinstance(tgt.func, ast.Attribute) and tgt.func.attr == 'setdefault' and len(tgt.args) == 2
@@ -777,7 +835,7 @@ class Fn:
 				d = tgt.func.value.id
 				if d in self.vars and self.vars[d][0] == 'dict' and self.vars[d][2][0] == 'list':
 					k = self.coerce(self.value(tgt.args[0]), self.vars[d][1], 'dict key')
-					a = self.coerce(self.value(v.args[0]), self.vars[d][2][1], 'appended value')
+					a = self.coerce(self.expr(v.args[0]), self.vars[d][2][1], 'appended value')
 					return self.guards(k.raises + a.raises, ind) + f'{ind}let s : St := {{ s with {d} := Py.dictAppend s.{d} {k.lean} {a.lean} }}\n'
 		raise Untranslatable(f'expression statement at line {st.lineno}')
 
@@ -807,6 +865,13 @@ class Fn:
 			e = self.coerce(self.expr(v), fields[tgt.attr], f'assignment to {r}.{tgt.attr}')
 			self.narrow = {k for k in self.narrow if f"id='{r}'" not in k}
 			return self.guards(e.raises, ind) + f'{ind}let s : St := {{ s with {r} := {{ s.{r} with {mangle(tgt.attr)} := {e.lean} }} }}\n'
+		def selfattr(t):
+			return isinstance(t, ast.Attribute) and isinstance(t.value, ast.Name) and t.value.id == 'self' and self.d.get('init')
+		if selfattr(tgt):
+			tgt = ast.copy_location(ast.Name(id='self_' + tgt.attr, ctx=ast.Store()), tgt)
+		if isinstance(tgt, ast.Tuple) and all(selfattr(t) or isinstance(t, ast.Name) for t in tgt.elts) and known_call:
+			tgt2 = ast.Tuple(elts=[ast.Name(id='self_' + t.attr, ctx=ast.Store()) if selfattr(t) else t for t in tgt.elts], ctx=ast.Store())
+			return self.s_Assign(ast.copy_location(ast.Assign(targets=[ast.copy_location(tgt2, tgt)], value=v, lineno=st.lineno), st), ind)
 		if not isinstance(tgt, ast.Name):
 			raise Untranslatable(f'assignment target at line {st.lineno}')
 		name = tgt.id
@@ -835,6 +900,7 @@ class Fn:
 	def call_known(self, v):
 		d = self.known[v.func.id]
 		self.calls.add(d['module'])
+		self.callees.add(d['name'])
 		names = [n for n, _ in d['params']]
 		given = dict(zip(names, v.args))
 		for k in v.keywords:
@@ -858,6 +924,13 @@ class Fn:
 		return self.s_Assign(ast.Assign(targets=[st.target], value=st.value, lineno=st.lineno), ind)
 
 	def s_Return(self, st, ind):
+		if isinstance(st.value, ast.ListComp) and self.d['ret'][0] == 'list':
+			if 'ret__' not in self.vars:
+				self.vars['ret__'] = self.d['ret']; self.order.append('ret__')
+			a = ast.copy_location(ast.Assign(targets=[ast.Name(id='ret__', ctx=ast.Store())], value=st.value, lineno=st.lineno), st)
+			r = ast.copy_location(ast.Return(value=ast.Name(id='ret__', ctx=ast.Load())), st)
+			ast.fix_missing_locations(a); ast.fix_missing_locations(r)
+			return self.stmt(a, ind) + self.stmt(r, ind)
 		if self.gen:
 			if st.value is not None: raise Untranslatable('return with a value in a generator')
 			return f'{ind}let _ ← (throw (Py.Ctl.ret s.yielded) : Py.M St Ret Unit)\n'
@@ -1067,6 +1140,8 @@ class Fn:
 		init = ', '.join(f'{n} := {n}' if n in dict(d['params']) else f'{n} := {default(self.vars[n])}' for n in self.order)
 		if self.gen:
 			fall = 'fun s => .ok s.yielded'
+		elif d.get('init'):
+			fall = 'fun s => .ok (' + ', '.join(f's.self_{a}' for a in d['init']) + ')'
 		elif ret[0] == 'opt':
 			fall = 'fun _ => .ok none'
 		else:
@@ -1075,7 +1150,7 @@ class Fn:
 		        f'abbrev {name}.Ret := {lean_ty(ret)}\n\nnamespace {name}\n'
 		        f'def run{envb} : St → Py.M St Ret St :=\n  fun s => do\n{body}    pure s\nend {name}\n\n'
 		        f'def {name}{envb}{params} : Py.Res {name}.Ret :=\n  Py.finish ({fall}) ({name}.run{"".join(" " + n for n, _ in d["env"])} {{ {init} }})\n'
-		        f'def {name}.untranslatable : Bool := false\n')
+		        f'def {name}.untranslatable : Bool := ' + ' || '.join(['false'] + [f'{c}.untranslatable' for c in sorted(self.callees)]) + '\n')
 
 	def stub(self, why: str) -> str:
 		d = self.d
